@@ -233,10 +233,60 @@ func flip(b []byte, at int) []byte {
 	return c
 }
 
+// protectedByte: bytes of a valid stream that DECLARE how much memory the decoder should set aside - the lzma-alone
+// dictionary size (bytes 1-4), the xz block header (dictionary-size property, bytes 12-23), the zstd frame header
+// descriptor / window descriptor / content size (bytes 4-13), bzip2's block-size digit (byte 3). They are never
+// mutated: a hostile value there makes a third-party decoder allocate up to 4 GiB, which says nothing about the library.
+func protectedByte(comp string, i int) bool {
+	switch comp {
+	case "lzma":
+		return i >= 1 && i <= 4
+	case "xz":
+		return i >= 12 && i <= 23
+	case "zst":
+		return i >= 4 && i <= 13
+	case "bz2":
+		return i == 3
+	}
+	return false
+}
+
+// declaresTooMuch: would the decoder for comp read a dictionary size above 8 MiB out of these bytes? Only lzma-alone
+// has no magic in front of its size field, so any foreign content under a .lzma name is screened.
+func declaresTooMuch(comp string, v []byte) bool {
+	if comp == "lzma" && len(v) >= 5 {
+		d := uint32(v[1]) | uint32(v[2])<<8 | uint32(v[3])<<16 | uint32(v[4])<<24
+		return d > 8<<20
+	}
+	return false
+}
+
+// flipAt flips the first unprotected byte at or after i.
+func flipAt(comp string, b []byte, i int) ([]byte, int) {
+	for i < len(b) && protectedByte(comp, i) {
+		i++
+	}
+	return flip(b, i), i
+}
+
+// thirdPartySem: at most two executions that go through a third-party decoder run at the same time.
+var thirdPartySem = make(chan struct{}, 2)
+
 // streamVariants: the menu of contents for a member that announces encoding comp; valid is the valid stream, others
 // are valid streams of the other encodings.
 func streamVariants(comp string, valid []byte, others map[string][]byte) (descs []string, vals [][]byte) {
-	add := func(d string, v []byte) { descs, vals = append(descs, d), append(vals, v) }
+	add := func(d string, v []byte) {
+		if declaresTooMuch(comp, v) {
+			return
+		}
+		descs, vals = append(descs, d), append(vals, v)
+	}
+	fl := func(d string, at int) {
+		v, i := flipAt(comp, valid, at)
+		if i < len(valid) {
+			add(fmt.Sprintf("valid stream, byte %d flipped (%s)", i, d), v)
+		}
+	}
 	add("empty", []byte{})
 	if len(valid) > 0 {
 		add("first byte only", valid[:1])
@@ -244,15 +294,13 @@ func streamVariants(comp string, valid []byte, others map[string][]byte) (descs 
 	if len(valid) >= 9 {
 		add("9 bytes of valid prefix", valid[:9])
 	}
-	h := 12
+	h := 24
 	if h > len(valid) {
 		h = len(valid)
 	}
 	add("valid header then garbage", append(append([]byte(nil), valid[:h]...), []byte(strings.Repeat("garbage!", 8))...))
-	if len(valid) > 3 {
-		add("right magic, next byte (method/flags) wrong", flip(valid, 2))
-		add("right magic, byte 3 wrong", flip(valid, 3))
-	}
+	fl("after the magic", 2)
+	fl("after the magic", 3)
 	for _, o := range gen.DebComps {
 		if o != comp {
 			if z, ok := others[o]; ok {
@@ -265,11 +313,11 @@ func streamVariants(comp string, valid []byte, others map[string][]byte) (descs 
 	}
 	if len(valid) > 1 {
 		add("valid stream without its last byte", valid[:len(valid)-1])
-		add("valid stream, byte 0 flipped", flip(valid, 0))
-		add("valid stream, a header byte flipped", flip(valid, 5))
-		add("valid stream, middle byte flipped", flip(valid, len(valid)/2))
-		add("valid stream, a trailer byte flipped", flip(valid, len(valid)-3))
-		add("valid stream, last byte flipped", flip(valid, len(valid)-1))
+		fl("first byte", 0)
+		fl("header", 5)
+		fl("middle", len(valid)/2)
+		fl("trailer", len(valid)-3)
+		fl("last byte", len(valid)-1)
 	}
 	add("valid stream followed by garbage", append(append([]byte(nil), valid...), []byte("trailing garbage")...))
 	return
@@ -320,7 +368,16 @@ func (x *runner) streamScenario(r *mc.Run) {
 			for i := shard * chunk; i < (shard+1)*chunk && i < len(ins); i++ {
 				b := gen.ArmBuild(ins[i].ms)
 				st.Transitions++
+				if ins[i].heavy {
+					thirdPartySem <- struct{}{}
+				}
+				done := func() {
+					if ins[i].heavy {
+						<-thirdPartySem
+					}
+				}
 				if !x.one("member-streams", st, lim, b, "load", ins[i].desc) {
+					done()
 					return false
 				}
 				pats := ClosePatterns
@@ -329,9 +386,11 @@ func (x *runner) streamScenario(r *mc.Run) {
 				}
 				for _, p := range pats {
 					if !x.one("member-streams", st, lim, b, fileVia(p), ins[i].desc) {
+						done()
 						return false
 					}
 				}
+				done()
 			}
 			return !r.Expired()
 		})
